@@ -94,7 +94,7 @@ def t_expLogical(rep, ints):
 
 
 def t_parseBlock(rep, ints):
-    inputs = ["out a>> f", "out a~> f", "a|:", "out ab>> f", "out (", "a>>", "a~>"]
+    inputs = ["out a>> f", "out a~> f", "a|:", "out ab>> f", "out (", "a>>", "a~>", "a $.(", "%[("]
     body = "func TestVerifReplay(t *testing.T) {\n"
     for s in inputs:
         body += '''	verifCatch(t, %s, func() {
@@ -130,6 +130,7 @@ def install(T, g):
     T["lang.createProcess"] = t_createProcess
     T["lang/expressions.(*ParserT).parseStatement"] = t_parseBlock
     T["lang/expressions.(*ParserT).parseExpression"] = t_parseBlock
+    T["lang/expressions.(*ParserT).parseSubExpression"] = t_parseBlock
     T["lang/expressions.(*ParserT).parseBareword"] = t_parseBlock
     T["lang/expressions.processStatementColon"] = t_parseBlock
     T["lang/expressions.expLogicalAnd"] = t_expLogical
